@@ -1,5 +1,4 @@
 from engine import Query
-import os
 META = {
  'functions': ['StringUtils::EscapeHTMLSpecialChars<Stream,Char> (StringUtils.hpp:205-290), instantiated on FixedStream<Char,6L+1> and on the '
                'harness observer streams LangStream / CountStream / CmpStream (harness/C03_escape_html.cpp)',
@@ -8,7 +7,7 @@ META = {
            'Observer harnesses (output language = no < > " \' anywhere and every & starts one of the five entities; decode(out) == decode(in); '
            'L <= |out| <= 6L; reads inside [str, str+L)): L = 0..6 quick, 0..8 thorough, three widths. '
            'FixedStream harnesses (symbolic output index, reference decoder on both sides, overflow flag false with CAP = 6L+1, one-unit '
-           'destination prefix preserved): L = 0..4 quick (char only), 0..5 thorough (three widths). '
+           'destination prefix preserved): L = 0..4 quick (char only), 0..5 thorough for char, 0..4 thorough for char16_t / char32_t. '
            'Idempotence: directly (escape twice, FixedStream then lockstep comparison) for L = 0..1 quick / 0..2 thorough; and as the lemma '
            '"every word t of the output language with |t| = M is a fixed point of the escaper" for M = 0..8 quick / 0..12 thorough, which with the '
            'language clause gives escape(escape(s)) == escape(s) for every s (|s| <= 6/8) whose escaped form has at most M units.',
@@ -28,22 +27,23 @@ def queries(tier):
     N = 6 if quick else 8          # observer harnesses
     NF = 4 if quick else 5         # FixedStream harnesses with a symbolic output index / reference decoders
     NI = 1 if quick else 2         # direct escape(escape(s)) (second input is 6*L units)
-    NX = int(os.environ.get('C03_NX', 8 if quick else 12))   # fixed-point lemma: words of the output language of NX units
-    be = os.environ.get('C03_BACKEND', 'sat')
+    NX = 8 if quick else 12        # fixed-point lemma: words of the output language of NX units
     qs = []
     for ch in WIDTHS:
         for L in range(0, max(N, NX) + 1):
             b = {'IsEqual': 6, 'Write': max(L + 1, 7), 'EscapeHTMLSpecialChars': L + 1, 'vf_buf.*': L + 1, 'dec_in': L + 1, 'dec_out': 6 * L + 1}
             for e in ('h_lang', 'h_dec', 'h_len', 'h_fix'):
                 if L > (NX if e == 'h_fix' else N): continue
-                qs.append(Query('%s/%s/L%d' % (e[2:], ch, L), H, e, {'L': L, 'CHAR': ch}, bounds=b, timeout=300, mem_gb=8, backend=be))
-            if L <= NF and (ch == 'char' or not quick):
+                big = (e == 'h_dec' and L >= 8)     # minisat runs out of 8 GB on this one
+                qs.append(Query('%s/%s/L%d' % (e[2:], ch, L), H, e, {'L': L, 'CHAR': ch}, bounds=b, timeout=900 if big else 400,
+                                mem_gb=12 if big else 8))
+            if L <= (NF if ch == 'char' else 4) and (ch == 'char' or not quick):   # wider units at L = 5: > 600 s, dropped
                 for e in ('h_safe', 'h_decode'):
-                    qs.append(Query('%s/%s/L%d' % (e[2:], ch, L), H, e, {'L': L, 'CHAR': ch}, bounds=b, timeout=600, mem_gb=8, backend=be))
+                    qs.append(Query('%s/%s/L%d' % (e[2:], ch, L), H, e, {'L': L, 'CHAR': ch}, bounds=b, timeout=600, mem_gb=8))
             if L <= NI and (ch == 'char' or not quick):
                 # first escaper: FixedStream::Write (fixed_stream.hpp) and its own main loop; second escaper (instantiated on the
                 # harness-local CmpStream, reached through esc2): slices and main loop run over the 6*L units of the first output
                 bi = {'IsEqual': 6, 'fixed_stream.hpp:Write': max(L + 1, 7), 'C03_escape_html.cpp:Write': max(6 * L + 1, 7),
                       '.*(esc2|CmpStream).*': 6 * L + 1, 'EscapeHTMLSpecialChars': L + 1, 'vf_buf.*': L + 1}
-                qs.append(Query('idem/%s/L%d' % (ch, L), H, 'h_idem', {'L': L, 'CHAR': ch}, bounds=bi, timeout=600, mem_gb=8, backend=be))
+                qs.append(Query('idem/%s/L%d' % (ch, L), H, 'h_idem', {'L': L, 'CHAR': ch}, bounds=bi, timeout=600, mem_gb=8))
     return qs
